@@ -123,6 +123,19 @@ TreeT == WithId([
 TipsTwin == {[n \in HB |-> IF n = "p" THEN "a4" ELSE "b3"]}
 TwinTops == {"a3", "a4"}
 
+\* two-phase fork (TreeE): the attacker's chain z2..z5 forks off t1; z2 is invalid (header-valid), z3..z5 are built on it
+\* AS IF it were valid.  The victim holds the honest a2-a3-a4.  With Batch = 2 and ReqH = 3 the first request [z2, z3]
+\* (base t1, below the require height) is stored header-only and is not heavier; the second [z4, z5] (base z3) passes
+\* checkpoint + pre-validation and tips the work over: the reorg must fail at z2 and leave the tip where it was.
+TreeE == WithId([
+  par |-> [g |-> "g", t1 |-> "g", a2 |-> "t1", a3 |-> "a2", a4 |-> "a3", z2 |-> "t1", z3 |-> "z2", z4 |-> "z3", z5 |-> "z4"],
+  h   |-> [g |-> 0, t1 |-> 1, a2 |-> 2, a3 |-> 3, a4 |-> 4, z2 |-> 2, z3 |-> 3, z4 |-> 4, z5 |-> 5],
+  cls |-> [g |-> "ok", t1 |-> "ok", a2 |-> "ok", a3 |-> "ok", a4 |-> "ok", z2 |-> "bad", z3 |-> "asif", z4 |-> "asif", z5 |-> "asif"],
+  lo  |-> [g |-> 0, t1 |-> 1, a2 |-> 2, a3 |-> 3, a4 |-> 4, z2 |-> 2, z3 |-> 3, z4 |-> 4, z5 |-> 5],
+  hi  |-> [g |-> 0, t1 |-> 1, a2 |-> 2, a3 |-> 3, a4 |-> 4, z2 |-> 2, z3 |-> 3, z4 |-> 4, z5 |-> 5]])
+TipsE == {[n \in HB |-> "a4"]}
+TopsE == {"z5", "z3"}
+
 \* ---- edge export (Leg R): printed once per explored transition, evaluated as ACTION_CONSTRAINT.
 \* The complete state is printed (the replay driver computes quiescent macro-steps on it and the Go
 \* harness compares the projection tip / known / link / banned with the real nodes).
